@@ -117,11 +117,19 @@ impl Array {
         let (a, a_transpose) = a;
         let (b, b_transpose) = b;
 
-        let input_dimensions = if a.dimensions.len() >= b.dimensions.len() {
+        let longer_dimensions = if a.dimensions.len() >= b.dimensions.len() {
             &a.dimensions
         } else {
             &b.dimensions
         };
+
+        // the leading dimensions are broadcast, and the last two are taken from the longer dimensions
+        let mut input_dimensions = element_wise_dimensions(
+            &a.dimensions[..a.dimensions.len().saturating_sub(2)],
+            &b.dimensions[..b.dimensions.len().saturating_sub(2)],
+        );
+        input_dimensions
+            .extend(&longer_dimensions[longer_dimensions.len().saturating_sub(2)..]);
 
         // TODO OpenCL
         let output_rows = if a.dimensions.len() < 2 && (!a_transpose || b.dimensions.len() < 2) {
@@ -254,7 +262,7 @@ impl Array {
             vec![a, b, c],
             &op,
             backward_op,
-            input_dimensions,
+            &input_dimensions,
             &output_dimensions,
             2,
             0,
